@@ -1004,6 +1004,9 @@ def _run(ctx, n_random, n_forced, n_perm, rep):
     # process level: a restore that fails must END (no loader thread may wait for a closed event loop)
     from harness import cli_hist
     cli_hist.termination_probe(ctx, rep, {'restore'})
+    # a coroutine backend whose authorisation expires while several transfers are outstanding
+    from harness import remote_hist
+    remote_hist.remote_expiry_probe(ctx, rep, 3)
 
 
 def run(ctx) -> Report:
@@ -1025,6 +1028,12 @@ def replay(ctx, obj):
         return rc
     rep = Report(rule=RULE)
     case = obj.get('replay') or {}
+    if case.get('probe') == 'remote_expiry':
+        from harness import remote_hist
+        remote_hist.remote_expiry_probe(ctx, rep, 6)
+        for v in rep.violations:
+            print('VIOLATION-REPRODUCED', v['what'])
+        return 1 if rep.violations else 0
     if case.get('probe') == 'lost_wakeup':
         lost_wakeup_probe(ctx, rep)
         for v in rep.violations:
